@@ -118,12 +118,56 @@ func exportedAlgorithms(p *Prog) []algoValue {
 		if !ok || !token.IsExported(name) || fn.Signature.Params().Len() != 0 || fn.Signature.Results().Len() != 1 {
 			continue
 		}
+		found := false
 		for _, b := range fn.Blocks {
 			for _, in := range b.Instrs {
 				if al, ok := in.(*ssa.Alloc); ok {
 					if f := compositeFields(fn, al); f["algorithm"] != nil {
 						out = append(out, algoValue{Name: name + "()", Kind: namedOf(al.Type()).Obj().Name(), Fields: f, Pos: al, Fn: fn})
+						found = true
 					}
+				}
+			}
+		}
+		if found {
+			continue
+		}
+		// a constructor that delegates to a package helper building the composite: take the helper's fields with the
+		// helper's parameters replaced by this constructor's arguments
+		for _, b := range fn.Blocks {
+			rt, ok := b.Instrs[len(b.Instrs)-1].(*ssa.Return)
+			if !ok || len(rt.Results) != 1 {
+				continue
+			}
+			c, ok := rt.Results[0].(*ssa.Call)
+			if !ok || c.Call.StaticCallee() == nil || c.Call.StaticCallee().Pkg != pk || len(c.Call.StaticCallee().Blocks) == 0 {
+				continue
+			}
+			h := c.Call.StaticCallee()
+			for _, hb := range h.Blocks {
+				for _, in := range hb.Instrs {
+					al, ok := in.(*ssa.Alloc)
+					if !ok {
+						continue
+					}
+					f := compositeFields(h, al)
+					if f["algorithm"] == nil {
+						continue
+					}
+					sub := map[string]ssa.Value{}
+					for k, v := range f {
+						sub[k] = v
+						for i, prm := range h.Params {
+							if v == ssa.Value(prm) && i < len(c.Call.Args) {
+								sub[k] = c.Call.Args[i]
+							}
+							// an interface conversion of the parameter
+							if mi, ok := v.(*ssa.MakeInterface); ok && mi.X == ssa.Value(prm) && i < len(c.Call.Args) {
+								sub[k] = c.Call.Args[i]
+							}
+						}
+					}
+					out = append(out, algoValue{Name: name + "()", Kind: namedOf(al.Type()).Obj().Name(), Fields: sub, Pos: al, Fn: h})
 				}
 			}
 		}
